@@ -61,9 +61,20 @@ def judge(chk, prop, spec, results, verdicts, obs_index):
       # integer RSQRT rejects non-positive inputs at invoke time: a precondition of the kernel on the DATA fed by the
       # harness, not a property of the model returned; counted, never a violation
       chk.cov["interp_data_dependent"] = chk.cov.get("interp_data_dependent", 0) + 1
+    elif spec["interp"] and r.get("interp") not in (None, "ok") and "F26" in {f["id"] for f in chk.kf.get("findings", [])} and f26(r["scn"], str(r["interp"])):
+      chk.known("F26")
     elif spec["interp"] and r.get("interp") not in (None, "ok"):
       chk.violation("interpreter: %s" % r["interp"], dict(rep, clause="interpreter", interp=r["interp"]))
   return nviol
+
+
+def f26(scn, msg):
+  """Known finding F26: the interpreter refuses, in batch_matmul.cc, a model that holds a BATCH_MATMUL with a constant FIRST operand
+  quantised under dynamic range or under 16-bit static range."""
+  if "batch_matmul.cc" not in msg or "lhs_data->type" not in msg:
+    return False
+  return any(o["kind"] == "BMMC" and (md["m"] == "DRQ" or (md["m"] == "SRQ" and md["a"] == "a16"))
+             for sub, modes in zip(scn["subs"], scn["mode"]) for o, md in zip(sub["ops"], modes))
 
 
 DESIGN_INVS = ["InvTopo", "InvWellFormed", "InvSkeleton", "InvModes"]
